@@ -1228,7 +1228,7 @@ func c14RunLane(t *testing.T, s *verifh.Session, e *c14Env, cases []*c14Case, ne
 			// klauspost zstd maps the source's unexpected EOF to a clean EOF at a frame boundary
 			// (permanent known finding, see the unit lane)
 			if !ok && c.alg == "zstd" && o.unc && o.term == "eof" {
-				if _, _, term := verifc14.Ref("zstd", c.wireBody(), io.ErrUnexpectedEOF); term == "eof" {
+				if _, _, term := verifc14.RefRaw("zstd", c.wireBody(), io.ErrUnexpectedEOF); term == "eof" {
 					class = "zstd-source-error-at-frame-boundary"
 				}
 			}
